@@ -80,6 +80,10 @@ class Sym:
     self.arr = arr if isinstance(arr, np.ndarray) else obj0(arr)
     self.dtype = np.dtype(dtype)
 
+  @property
+  def shape(self):
+    return self.arr.shape
+
 
 def sym_call(interp, fn, *args, static_argnums=(), **kw):
   """Trace the REAL function `fn` at the shapes of args (Sym leaves become traced inputs, everything
@@ -136,10 +140,13 @@ def smt_prove(alg: Z3Alg, pre, goal, timeout_s=30, name='', use_cvc5=True, side=
   import z3
   goals = goal if isinstance(goal, (list, tuple)) else [goal]
   goals = [g for g in goals if not (isinstance(g, bool) and g)]
+  # syntactic pre-pass: goals that z3's simplifier already reduces to `true` (identical terms, congruent sqrt / trig instances) need no search
+  pre_n = len(goals)
+  goals = [g for g in goals if isinstance(g, bool) or not z3.is_true(z3.simplify(g))]
   if any(isinstance(g, bool) and not g for g in goals):
     return Result(REFUTED, 'goal is the constant False', witness={})
   if not goals:
-    return Result(PROVED, 'goal is trivially true after partial evaluation', stats={'queries': 0})
+    return Result(PROVED, 'goal is trivially true after partial evaluation / term simplification (%d clauses)' % pre_n, stats={'queries': 0, 'clauses': pre_n})
   s = z3.Solver()
   s.set('timeout', int(timeout_s * 1000))
   s.set('random_seed', seed)
